@@ -51,7 +51,7 @@ def candidates(path, text):
     depth_fmt = 0
     for i in range(stop):
         l = lines[i]
-        if "cfg(oll3_bita_verif)" in l or "cfg(not(oll3_bita_verif))" in l:
+        if re.search(r"cfg\((not\()?oll3_bita_verif|cfg\(not\(unix\)\)|cfg\(windows\)|cfg\(target_os = \"(macos|android|windows)\"\)", l):
             guarded = True
             continue
         if guarded:  # the item following the attribute: skip until a line that closes at column <= attribute's
@@ -148,8 +148,8 @@ class Env:
     def tests(self):
         env = dict(os.environ, CARGO_NET_OFFLINE="true", CARGO_TARGET_DIR=f"{self.base}/target-tests")
         env.pop("RUSTFLAGS", None)
-        rc, out = sh("timeout 900 cargo test --workspace --offline --no-fail-fast 2>&1 | tail -60", cwd=self.repo, env=env, timeout=1000)
-        if re.search(r"^error(\[|:)|could not compile", out, re.M):
+        rc, out = sh("timeout 300 cargo test --workspace --offline --no-fail-fast 2>&1 | tail -60", cwd=self.repo, env=env, timeout=400)
+        if re.search(r"^error\[|could not compile", out, re.M):
             return "nocompile", out[-600:]
         if rc != 0 or "test result: FAILED" in out or "TIMEOUT" in out or "FAILED" in out or "Terminated" in out:
             return "tests-fail", "; ".join(re.findall(r"^test (\S+) \.\.\. FAILED", out, re.M))[:300] or out[-300:]
